@@ -371,7 +371,7 @@ theorem writeAnswers_spec (H : Bytes) (hH : H.length = 12) (mc : Bool) :
           simp only [recordAloneSize, h2] at hfit
           simp only [commit, hal, hs12] at h1
           have : Gen.Outgoing.fits (12 + out.length) (Gen.Outgoing.len_limit true) = true := by
-            rw [GenFacts.Outgoing.fits_iff]; simpa [Gen.Outgoing.len_limit] using hfit
+            rw [GenFacts.Outgoing.fits_iff, GenFacts.Outgoing.len_limit_true]; simpa using hfit
           simp [this] at h1
       | true =>
         simp only [if_true] at hw
@@ -446,7 +446,7 @@ theorem writeQuestions_spec (H : Bytes) (hH : H.length = 12) (mc : Bool) :
           simp only [questionAloneSize, h2] at hfit
           simp only [commit, hal, hs12] at h1
           have : Gen.Outgoing.fits (12 + out.length) (Gen.Outgoing.len_limit true) = true := by
-            rw [GenFacts.Outgoing.fits_iff]; simpa [Gen.Outgoing.len_limit] using hfit
+            rw [GenFacts.Outgoing.fits_iff, GenFacts.Outgoing.len_limit_true]; simpa using hfit
           simp [this] at h1
       | true =>
         simp only [if_true] at hw
